@@ -282,6 +282,19 @@ def scenarios():
                                          "--plot_mode", "xz", "-o", t]),
         "gen.json")
 
+    # a literal, unexpanded '~' in the target: whatever evo does with it, a
+    # file that exists under $HOME must not be replaced without a question
+    def run_tilde(wd, target, answer, warn):
+        old_home = os.environ.get("HOME")
+        os.environ["HOME"] = wd
+        try:
+            return _main_entry("evo.main_config", lambda t, w: [
+                "evo_config", "generate", "--align", "-o", "~/cfg.json"])(
+                    wd, target, answer, warn)
+        finally:
+            os.environ["HOME"] = old_home
+    add("evo_config:generate-tilde", run_tilde, "cfg.json")
+
     def prep_fig(wd):
         _figs().serialize(os.path.join(wd, "in.ser"), confirm_overwrite=False)
         import matplotlib.pyplot as plt
@@ -297,7 +310,10 @@ def scenarios():
     return S
 
 
-ALWAYS_CONFIRMS = {"evo_config:generate"}
+ALWAYS_CONFIRMS = {"evo_config:generate", "evo_config:generate-tilde"}
+# scenarios in which evo may fail or write elsewhere (the path is unusual);
+# only "existing files stay untouched unless confirmed" is demanded
+LENIENT = {"evo_config:generate-tilde"}
 # evo_fig additionally asks whether to overwrite its *input* file
 EXTRA_PROMPT_TARGET = {"evo_fig:save_plot": "in.ser",
                        "evo_fig:serialize_plot": "in.ser"}
@@ -360,6 +376,10 @@ def run_history(name, pathtype, initial, history, wd=None):
     elif initial == "old-first-only":
         with open(os.path.join(wd, outputs[0]), "wb") as f:
             f.write(OLD)
+    elif initial == "empty":
+        # zero-length existing files are existing files
+        for o in outputs:
+            open(os.path.join(wd, o), "wb").close()
     msgs, labels = [], []
     extra = EXTRA_PROMPT_TARGET.get(name)
     for step, (answer, warn) in enumerate(history):
@@ -385,6 +405,18 @@ def run_history(name, pathtype, initial, history, wd=None):
         confirm = warn
         where = "%s step %d (answer %r, warnings %s, existing %s)" % (
             name, step, answer, "on" if warn else "off", existed)
+        if name in LENIENT:
+            declined = confirm and answer != "y"
+            asked = len(r.prompts) > 0
+            for o in existed:
+                if after.get(o) != before[o] and (declined or not asked):
+                    msgs.append("%s: existing file %s was replaced %s" %
+                                (where, o, "although the answer was %r" %
+                                 answer if asked else "without any question"))
+            labels.append("declined" if declined and existed else "written")
+            if msgs:
+                break
+            continue
         if r.error:
             msgs.append("%s: run failed: %s" % (where, r.error))
             break
@@ -418,9 +450,11 @@ def run_history(name, pathtype, initial, history, wd=None):
                 if o not in after:
                     msgs.append("%s: output %s was not written" % (where, o))
                 elif after[o] == OLD or len(after[o]) == 0:
+                    # (covers the zero-length initial state as well)
                     msgs.append("%s: output %s still holds the old content" %
                                 (where, o))
-                elif o in before and before[o] != OLD and step > 0 and \
+                elif o in before and before[o] not in (OLD, b"") and \
+                        step > 0 and \
                         name.startswith(("writer:tum", "writer:kitti")) and \
                         after[o] != before[o]:
                     msgs.append("%s: deterministic writer produced different "
@@ -447,7 +481,8 @@ def cases_for(name, S, thorough):
     cases = []
     cheap = S["cost"] == "cheap"
     multi = len(S["outputs"](S["target"])) > 1
-    inits = ["absent", "old"] + (["old-first-only"] if multi else [])
+    inits = ["absent", "old", "empty"] + (["old-first-only"] if multi
+                                           else [])
     for pt in S["pathtypes"]:
         if cheap:
             for init in inits:
